@@ -25,8 +25,7 @@ SJ == [cfg |-> cfg, now |-> now, nid |-> nextId, ntx |-> nextTx,
        txs |-> {[tid |-> t, ver |-> txs[t].ver, st |-> txs[t].st, ins |-> txs[t].ins, made |-> txs[t].made,
                  out |-> txs[t].out, fee |-> txs[t].fee, exp |-> txs[t].exp] : t \in TxIds}]
 OJ == [sp |-> BalSpendable, conf |-> BalConfirmed, imm |-> BalImmature, unc |-> BalUnconfirmed,
-       list |-> ListSpendable, cm |-> ConfMust, um |-> UncMust,
-       live |-> {t \in TxIds : Live(t)}, canb |-> {t \in TxIds : CanBroadcast(t)}]
+       list |-> ListSpendable]
 
 \* Printed once per explored transition (evaluated as ACTION_CONSTRAINT)
 EmitEdge ==
@@ -72,16 +71,25 @@ PolicyFund ==
               /\ FundOK(ver, amt, unc, [tid |-> nextTx, ver |-> ver, ins |-> sel, out |-> amt, fee |-> 0,
                                         made |-> ChangeOf(SumV(sel) - amt, nextId)])
 
+\* wallet.go:731-794: one transaction per batch of at most Batch wanted outputs, each taking
+\* the largest remaining candidates until they EXCEED the batch's need; the first batch that
+\* cannot be funded ends the call (error if it is the first batch, partial success otherwise)
+RECURSIVE PolicyBatches(_, _, _, _, _)
+PolicyBatches(cand, outs, amt, tid, id) ==
+    IF outs <= 0 THEN {}
+    ELSE LET k == MinOf(outs, Batch)
+             sel == PickOver(cand, k * amt)
+         IN IF SumV(sel) < k * amt THEN {}
+            ELSE {RedistDesc(tid, sel, k, amt, id)}
+                 \cup PolicyBatches(cand \ sel, outs - k, amt, tid + 1, id + NewIds(sel, k, amt))
+
 PolicyRedist ==
     \E n \in RedistNs, amt \in RedistAmts :
         \/ RedistNone(n, amt, 0)
         \/ RedistFail(n, amt, 0)
-        \/ LET k == MinOf(n - Cardinality(SameMust(amt)), Batch)
-               sel == PickOver(ConfMust \ SameMust(amt), k * amt)
-           IN /\ k > 0 /\ SumV(sel) >= k * amt
-              /\ RedistOK(n, amt, 0, {[tid |-> nextTx, ver |-> 2, ins |-> sel, out |-> 0, fee |-> 0,
-                                       made |-> {[id |-> nextId + j - 1, v |-> amt] : j \in 1..k}
-                                                \cup ChangeOf(SumV(sel) - k * amt, nextId + k)]})
+        \/ LET D == PolicyBatches(ConfMust \ SameMust(amt), n - Cardinality(SameMust(amt)), amt, nextTx, nextId)
+           IN /\ D # {}
+              /\ RedistOK(n, amt, 0, D)
 
 PolicySplit ==
     \E n \in SplitNs, mn \in SplitMins :
@@ -116,5 +124,10 @@ WalletsR1 == { <<O(3, 0)>>, <<O(1, 0), O(2, 0)>> }
 WalletsR2 == { <<O(2, 0), O(3, 1)>>, <<O(2, 0), O(1, 2), O(3, 0)>> }
 WalletsR3 == { <<O(1, 0), O(2, 0), O(3, 0)>>, <<O(1, 0), O(2, 0), O(2, 0), O(4, 0)>> }
 CfgsR2    == {CfgTiny, CfgDt0}
+\* multi-batch Redistribute(11, 2): both batches funded / second batch dropped with a non-empty
+\* but insufficient remainder (partial success) / first batch not fundable
+WalletsMB == { <<O(21, 0), O(3, 0)>>, <<O(21, 0), O(1, 0)>>, <<O(21, 0), O(1, 0), O(1, 0), O(1, 0)>>, <<O(5, 0), O(1, 0)>> }
+WalletsMBm == { <<O(2, 0), O(1, 0)>>, <<O(1, 0), O(1, 0), O(2, 0)>>, <<O(3, 0)>> }
+CfgsMB    == {CfgDefault, CfgTiny}
 
 =============================================================================
